@@ -124,7 +124,7 @@ type dRun struct {
 }
 
 func (r *dRun) kidSpecs() []interface{} {
-	var ks []interface{}
+	ks := []interface{}{} // (never a typed nil: the store would hold JSON null behind a value that prints as [])
 	for _, k := range r.kids {
 		ns := ""
 		if r.sc.ns() == "" {
